@@ -1,7 +1,8 @@
 use num::bigint::BigInt;
 use num::traits::FloatConst;
 use num::{
-    BigRational, CheckedAdd, CheckedDiv, CheckedMul, CheckedSub, FromPrimitive, Rational64, Signed,
+    BigRational, CheckedAdd, CheckedDiv, CheckedMul, CheckedSub, FromPrimitive, Integer,
+    Rational64, Signed, Zero,
 };
 use num::{Num, Rational32, ToPrimitive};
 use std::cmp::Ordering;
@@ -264,7 +265,12 @@ impl Number {
             Number::Fixnum(num) => num.unsigned_abs().into(),
             Number::Float(num) => num.abs().into(),
             Number::BigInt(num) => num.abs().into(),
-            Number::Rational(num) => num.abs().into(),
+            // -i32::MIN is not an i32
+            Number::Rational(num) => match num.numer().checked_abs() {
+                Some(numer) => Rational32::new_raw(numer, *num.denom()).into(),
+                None if num.is_integer() => (-(*num.numer() as i64)).into(),
+                None => num.to_f64().unwrap_or(f64::NAN).abs().into(),
+            },
         }
     }
 
@@ -294,7 +300,10 @@ impl Number {
             Number::Fixnum(_) => self.clone(),
             Number::Float(num) => num.floor().into(),
             Number::BigInt(_) => self.clone(),
-            Number::Rational(num) => num.floor().into(),
+            // Ratio::floor adds the denominator to the numerator, which can leave the i32 range
+            Number::Rational(num) => {
+                Rational32::from_integer(Integer::div_floor(num.numer(), num.denom())).into()
+            }
         }
     }
 
@@ -303,7 +312,10 @@ impl Number {
             Number::Fixnum(_) => self.clone(),
             Number::Float(num) => num.ceil().into(),
             Number::BigInt(_) => self.clone(),
-            Number::Rational(num) => num.ceil().into(),
+            Number::Rational(num) => {
+                let (quotient, remainder) = num.numer().div_mod_floor(num.denom());
+                Rational32::from_integer(quotient + (remainder != 0) as i32).into()
+            }
         }
     }
 
@@ -325,10 +337,9 @@ impl Number {
             Number::Float(num) => num.powf(exp as f64).into(),
             Number::BigInt(lhs) => lhs.pow(exp).into(),
             Number::Rational(num) => {
-                if exp.to_i32().is_some() {
-                    num.pow(exp as i32).into()
-                } else {
-                    num.to_f64().unwrap_or(f64::NAN).powf(exp as f64).into()
+                match (num.numer().checked_pow(exp), num.denom().checked_pow(exp)) {
+                    (Some(numer), Some(denom)) => Rational32::new_raw(numer, denom).into(),
+                    _ => num.to_f64().unwrap_or(f64::NAN).powf(exp as f64).into(),
                 }
             }
         }
@@ -701,6 +712,28 @@ impl Sub for &Number {
     }
 }
 
+/// The exact quotient of two 32 bit integers. Reducing in 64 bits keeps the sign
+/// normalisation of `Ratio::new` from negating `i32::MIN`; a quotient whose parts do not
+/// fit a `Rational32` is an integer (2^31) or falls back to a float (denominator 2^31).
+fn ratio_of_i32(numer: i32, denom: i32) -> Number {
+    let ratio = Rational64::new(numer as i64, denom as i64);
+    match (ratio.numer().to_i32(), ratio.denom().to_i32()) {
+        (Some(numer), Some(denom)) => Rational32::new_raw(numer, denom).into(),
+        _ if ratio.is_integer() => (*ratio.numer()).into(),
+        _ => (numer as f64 / denom as f64).into(),
+    }
+}
+
+/// `Ratio::checked_div`, except that 0 / x does not take `gcd(0, i32::MIN)`, which
+/// negates `i32::MIN`.
+fn ratio_checked_div(lhs: &Rational32, rhs: &Rational32) -> Option<Rational32> {
+    if lhs.is_zero() && !rhs.is_zero() {
+        Some(Rational32::zero())
+    } else {
+        lhs.checked_div(rhs)
+    }
+}
+
 impl Div for Number {
     type Output = Number;
     fn div(self, rhs: Self) -> Self::Output {
@@ -716,14 +749,14 @@ impl Div for &Number {
             Number::Fixnum(lhs) => match rhs {
                 Number::Fixnum(rhs) => {
                     if lhs.to_i32().is_some() && rhs.to_i32().is_some() {
-                        Rational32::new(*lhs as i32, *rhs as i32).into()
+                        ratio_of_i32(*lhs as i32, *rhs as i32)
                     } else {
                         (*lhs as f64 / *rhs as f64).into()
                     }
                 }
                 Number::BigInt(rhs) => {
                     if lhs.to_i32().is_some() && rhs.to_i32().is_some() {
-                        Rational32::new(*lhs as i32, rhs.to_i32().unwrap()).into()
+                        ratio_of_i32(*lhs as i32, rhs.to_i32().unwrap())
                     } else {
                         (*lhs as f64 / rhs.to_f64().unwrap_or(f64::NAN)).into()
                     }
@@ -731,7 +764,7 @@ impl Div for &Number {
                 Number::Float(rhs) => (*lhs as f64 / rhs).into(),
                 Number::Rational(rhs) => {
                     if lhs.to_i32().is_some() {
-                        match Rational32::from_integer(*lhs as i32).checked_div(rhs) {
+                        match ratio_checked_div(&Rational32::from_integer(*lhs as i32), rhs) {
                             Some(num) => num.into(),
                             None => (*lhs as f64 / rhs.to_f64().unwrap_or(f64::NAN)).into(),
                         }
@@ -743,14 +776,14 @@ impl Div for &Number {
             Number::BigInt(lhs) => match rhs {
                 Number::Fixnum(rhs) => {
                     if lhs.to_i32().is_some() && rhs.to_i32().is_some() {
-                        (Rational32::new(lhs.to_i32().unwrap(), *rhs as i32)).into()
+                        ratio_of_i32(lhs.to_i32().unwrap(), *rhs as i32)
                     } else {
                         (lhs.to_f64().unwrap_or(f64::NAN) / *rhs as f64).into()
                     }
                 }
                 Number::BigInt(rhs) => {
                     if lhs.to_i32().is_some() && rhs.to_i32().is_some() {
-                        (Rational32::new(lhs.to_i32().unwrap(), rhs.to_i32().unwrap())).into()
+                        ratio_of_i32(lhs.to_i32().unwrap(), rhs.to_i32().unwrap())
                     } else {
                         (lhs.to_f64().unwrap_or(f64::NAN) / rhs.to_f64().unwrap_or(f64::NAN)).into()
                     }
@@ -758,7 +791,10 @@ impl Div for &Number {
                 Number::Float(rhs) => (lhs.to_f64().unwrap() / *rhs).into(),
                 Number::Rational(rhs) => {
                     if lhs.to_i32().is_some() {
-                        match Rational32::from_integer(lhs.to_i32().unwrap()).checked_div(rhs) {
+                        match ratio_checked_div(
+                            &Rational32::from_integer(lhs.to_i32().unwrap()),
+                            rhs,
+                        ) {
                             Some(num) => num.into(),
                             None => {
                                 (lhs.to_f64().unwrap() / rhs.to_f64().unwrap_or(f64::NAN)).into()
@@ -778,7 +814,7 @@ impl Div for &Number {
             Number::Rational(lhs) => match rhs {
                 Number::Fixnum(rhs) => {
                     if rhs.to_i32().is_some() {
-                        match lhs.checked_div(&Rational32::from_integer(*rhs as i32)) {
+                        match ratio_checked_div(lhs, &Rational32::from_integer(*rhs as i32)) {
                             Some(num) => num.into(),
                             None => (lhs.to_f64().unwrap_or(f64::MAX) / *rhs as f64).into(),
                         }
@@ -789,7 +825,10 @@ impl Div for &Number {
                 Number::Float(rhs) => (lhs.to_f64().unwrap_or(f64::NAN) / *rhs).into(),
                 Number::BigInt(rhs) => {
                     if rhs.to_i32().is_some() {
-                        match lhs.checked_div(&Rational32::from_integer(rhs.to_i32().unwrap())) {
+                        match ratio_checked_div(
+                            lhs,
+                            &Rational32::from_integer(rhs.to_i32().unwrap()),
+                        ) {
                             Some(num) => num.into(),
                             None => {
                                 (lhs.to_f64().unwrap_or(f64::MAX) / rhs.to_f64().unwrap()).into()
@@ -799,7 +838,7 @@ impl Div for &Number {
                         (lhs.to_f64().unwrap_or(f64::MAX) / rhs.to_f64().unwrap()).into()
                     }
                 }
-                Number::Rational(rhs) => match lhs.checked_div(rhs) {
+                Number::Rational(rhs) => match ratio_checked_div(lhs, rhs) {
                     Some(num) => num.into(),
                     None => {
                         (lhs.to_f64().unwrap_or(f64::NAN) / rhs.to_f64().unwrap_or(f64::NAN)).into()
